@@ -35,7 +35,7 @@ theorem subframe_fixed (cfg : SubCfg) (xs : List Int) (bps : Nat) (s : SubFrame)
   obtain ⟨kord, prc, hk4, hsearch, rfl⟩ := hs
   obtain ⟨hdl, hdr, hdd⟩ := diffs_fixed bps hb xs hx kord hk4 (by omega)
   obtain ⟨hwf, hrd⟩ := residual_of_search (diffs kord xs) kord cfg.maxP prc (fits_of_range _ hdr)
-    (by rw [hdl]; omega) (by rw [hdl]; exact hlen) hmax hsearch k
+    (by rw [hdl]; omega) (by rw [hdl]; exact hlen) hmax (by omega) hsearch k
   rw [hdl, hdd] at hrd
   obtain ⟨rep, h1, h2, h3⟩ := readSubframe_fixed xs bps kord _ _ _ k hb.1 hx hk4 (by omega) hrd
   refine ⟨rep, h1, h2, h3, ?_⟩
@@ -46,15 +46,15 @@ theorem subframe_fixed (cfg : SubCfg) (xs : List Int) (bps : Nat) (s : SubFrame)
 theorem subframe_lpc (cfg : SubCfg) (xs : List Int) (bps : Nat) (log : List OEvent) (s : SubFrame)
     (hn : 64 ≤ xs.length) (hlen : xs.length < 2 ^ 16) (hb : 1 ≤ bps ∧ bps ≤ 32)
     (hx : ∀ x ∈ xs, SubFrame.inRange bps x = true) (hmax : cfg.maxP ≤ 14)
-    (hlog : ∀ e ∈ log, e.Ok) (hfit : LpcFits log xs)
+    (hlog : ∀ e ∈ log, e.Ok)
     (hs : LpcShape cfg xs bps log s) (k : Bits) :
     ∃ rep, readSubframe xs.length bps (s.bits ++ k) = .ok (rep, k) ∧ rep.samples = xs ∧
       rep.bitLen = s.bits.length ∧ s.WF := by
   obtain ⟨coefs, shift, precision, errors, prc, hmem, hce, hsearch, rfl⟩ := hs
   obtain ⟨hc1, hc32, hp1, hp15, hs0, hs15, hcr⟩ := hlog _ hmem
-  obtain ⟨hel, hef, hed⟩ := computeError_spec coefs shift.toNat xs errors hce (hfit coefs shift precision hmem)
+  obtain ⟨hel, hef, hed⟩ := computeError_spec coefs shift.toNat xs errors hce
   obtain ⟨hwf, hrd⟩ := residual_of_search errors coefs.length cfg.maxP prc hef
-    (by rw [hel]; omega) (by rw [hel]; exact hlen) hmax hsearch k
+    (by rw [hel]; omega) (by rw [hel]; exact hlen) hmax (by omega) hsearch k
   rw [hel, hed] at hrd
   obtain ⟨rep, h1, h2, h3⟩ := readSubframe_lpc xs bps coefs shift precision _ _ _ k hb.1 hx hc1 hc32 (by omega)
     hp1 hp15 hs0 hs15 hcr hrd
@@ -68,7 +68,7 @@ theorem subframe_lpc (cfg : SubCfg) (xs : List Int) (bps : Nat) (log : List OEve
 theorem subframe_strict (cfg : SubCfg) (xs : List Int) (bps : Nat) (log log' : List OEvent) (s : SubFrame)
     (hn : 1 ≤ xs.length) (hlen : xs.length < 2 ^ 16) (hb : 1 ≤ bps ∧ bps ≤ 25)
     (hx : ∀ x ∈ xs, SubFrame.inRange bps x = true) (hmax : cfg.maxP ≤ 14)
-    (hlog : ∀ e ∈ log, e.Ok) (hfit : LpcFits log xs)
+    (hlog : ∀ e ∈ log, e.Ok)
     (h : encodeSubframe cfg xs bps log = some (s, log')) (k : Bits) :
     ∃ rep, readSubframe xs.length bps (s.bits ++ k) = .ok (rep, k) ∧ rep.samples = xs ∧
       rep.bitLen = s.bits.length ∧ s.WF := by
@@ -80,8 +80,7 @@ theorem subframe_strict (cfg : SubCfg) (xs : List Int) (bps : Nat) (log log' : L
     exact ⟨rep, h1, h2, h3, hn, hb.1, by omega, hx⟩
   · exact subframe_fixed cfg xs bps s h64 hlen hb hx hmax hs k
   · exact subframe_lpc cfg xs bps log1 s h64 hlen ⟨hb.1, by omega⟩ hx hmax
-      (fun e he => hlog e (hsub e he))
-      (fun c sh p hm => hfit c sh p (hsub _ hm)) hs k
+      (fun e he => hlog e (hsub e he)) hs k
 
 end Strict
 end FlacVerif
